@@ -301,15 +301,23 @@ func generate(w *casefile.Writer, seed uint64, thorough bool) {
 	}
 	for i := 0; i < nFake; i++ {
 		docs := genCorpus(r, r.Range(1, 24))
-		sp := &Spec{Kind: "fake", Layout: genLayout(r, docs, 6, genDupes(r)), P: genParams(r, docs), FPI: rng.Pick(r, fpis)}
+		dupes := genDupes(r)
+		sp := &Spec{Kind: "fake", Layout: genLayout(r, docs, 6, dupes), P: genParams(r, docs), FPI: rng.Pick(r, fpis)}
+		if dupes > 0 && r.Chance(1, 3) { // every copy within the limit: the merge repairs Total and histogram
+			sp.P.Limit = len(docs) + dupes + r.Intn(3)
+		}
 		runSpec(w, sp)
 	}
 	for i := 0; i < nRealLayouts; i++ {
 		docs := genCorpus(r, r.Range(2, 30))
-		layout := genLayout(r, docs, 5, genDupes(r))
+		dupes := genDupes(r)
+		layout := genLayout(r, docs, 5, dupes)
 		reqs := make([]*Spec, nRealReqs)
 		for j := range reqs {
 			reqs[j] = &Spec{P: genParams(r, docs), FPI: rng.Pick(r, fpis)}
+			if dupes > 0 && r.Chance(1, 3) {
+				reqs[j].P.Limit = len(docs) + dupes + r.Intn(3)
+			}
 		}
 		runReal(w, layout, genSealed(r, len(layout)), true, reqs)
 	}
